@@ -49,9 +49,19 @@ def render(pristine, dirty, hexonly=None, ws_append=False, spaces_only=False):
             o = next((i for i in cands if i not in used), offs[k])
             used.add(o)
             offs[k] = o
+    # the "mid" flip goes to the line feed nearest to the middle, if the file has one, and turns it into a carriage
+    # return: a different byte, the same JSON value, and the kind of change a line-ending conversion makes
+    lf_mid = None
+    if hexonly is None:
+        lfs = [i for i, ch in enumerate(pristine) if ch == 0x0A and i not in (offs.get("first"), offs.get("last"), offs.get("in8k"), offs.get("b8192"))]
+        if lfs:
+            lf_mid = min(lfs, key=lambda i: abs(i - len(pristine) // 2))
     for r in ("first", "in8k", "b8192", "mid", "last"):
         if r in dirty:
             o = offs[r]
+            if r == "mid" and lf_mid is not None:
+                b[lf_mid] = 0x0D
+                continue
             if hexonly is not None:
                 b[o] = ord("0") if b[o] != ord("0") else ord("1")
             else:
@@ -479,6 +489,9 @@ def run(pid, tier):
                   {"path": "app2", "uses": ["app"], "argmaps": {"definitions": {"ci": {"path": "app2/ci-args.json"}}}},
                   {"path": "app-web", "uses": ["app/src.txt"], "ignores": ["app/README.md"], "commands": {"path": "app-web/tools"}}],
                  [{"path": "a", "commands": {}}, {"path": "a/b", "argmaps": {"definitions": {}}}, {"path": "c", "uses": ["a/b"]}],
+                 # strings that look like syntax to a careless reader: a trailing backslash, `//`, `/*`, quotes, braces, commas
+                 [{"path": "app", "ignores": ["app/legacy\\", "app/{gen},[x]"], "uses": ["common//lib", "lib/*.rs", "say \"hi\" // not a comment"]},
+                  {"path": "lib", "ignores": ["lib/#notes", "lib/a:b"]}, {"path": "common"}],
                  [{"path": "svc/é%02d" % i, "ignores": ["svc/é%02d/dócs/%s" % (i, "ü" * 20)]} for i in range(64)]]
         for t in small:
             values.append((t, None))
